@@ -50,7 +50,8 @@ type CCase struct {
 	M     CMsg            `json:"m"`
 	Bytes string          `json:"bytes"`
 	Recv  string          `json:"recv"`
-	Raw   json.RawMessage `json:"-"` // the JSON text TLC printed (goes into the trace unchanged)
+	Mode  string          `json:"mode"` // "handle" | "send" | "stress"
+	Raw   json.RawMessage `json:"-"`    // the JSON text TLC printed (goes into the trace unchanged)
 }
 
 func TopicName(t string) string {
